@@ -340,7 +340,7 @@ theorem refines_step (h : Heap) (op : Op) (hd : defectOp op = false) :
   cases op <;>
     simp only [step, getItem_refines, setItem_refines, pop_refines, delItem_refines, insert_refines,
       remove_refines, count_refines, slice_refines, reverse_refines, strGet_refines,
-      mapIdx_refines] <;> try rfl
+      mapIdx_refines, indexOf_refines, nextOf_refines, drain_refines, forLoop_refines] <;> try rfl
   · simp [defectOp] at hd
 
 /-- The full statement of the refinement half of the property: EVERY operation sequence
@@ -479,6 +479,26 @@ theorem keeps_stepB (h : Heap) (b : BOp) (r : Nat) (hr : r < h.objs.length)
     simp_all [Keeps, Heap.put, Heap.alloc, newList, allocs, List.getElem?_append_left] <;>
     omega
 
+/-- frame for `for` loops: a loop whose body leaves the list alone changes nothing at all, a
+    loop whose body changes the list changes that list only; the record is a new object -/
+theorem keeps_lFor (m : Mode) (h : Heap) (r' : Nat) (w : Bool) (b : Body) (r : Nat) (hr : r < h.objs.length)
+    (ht : target (.lFor r' w b) ≠ some r) : Keeps r h (step m h (.lFor r' w b)).1 := by
+  simp only [step]
+  split
+  · rename_i xs hg
+    have hk := forLoop_keeps m r' w b (max xs.length b.bound + 1) h 0 []
+    simp only [newList, Heap.alloc, Keeps, List.length_append, List.length_singleton]
+    refine ⟨?_, by omega⟩
+    rw [List.getElem?_append_left (by omega)]
+    by_cases hb : b = .none
+    · subst hb
+      rw [forLoop_none m r' w xs _ h 0 [] hg (by simp [Body.bound])]
+    · have hne : r ≠ r' := by
+        intro e; subst e
+        cases b <;> simp_all [target]
+      exact hk.2.2 r hne
+  · exact ⟨rfl, Nat.le_refl _⟩
+
 /-- **Frame**: an operation changes no container object other than its target; operations
     that build a new container (slice, copy, sorted, reversed, keys, values, union, …) have
     no target and change no existing object. -/
@@ -488,6 +508,7 @@ theorem keeps_step (m : Mode) (h : Heap) (op : Op) (r : Nat) (hr : r < h.objs.le
   case bi b =>
     simp only [step]
     exact keeps_stepB h b r hr ht
+  case lFor r' w b => exact keeps_lFor m h r' w b r hr ht
   all_goals
     simp only [step, target, ne_eq, Option.some.injEq, reduceCtorEq, not_false_eq_true] at ht ⊢ <;>
     (repeat' split) <;>
@@ -796,6 +817,243 @@ theorem chunks_join (n : Nat) (hn : 1 ≤ n) (f : Nat) (xs : List Val) (hf : xs.
       rw [ih _ (by simp only [List.length_drop, List.length_cons] at hf ⊢; omega)]
       exact List.take_append_drop n (x :: xs)
 
+/-! ## 7a. Searching a list uses the LANGUAGE's equality — across the numeric types too
+
+`l.index(v)`, `l.count(v)`, `l.remove(v)`, `v in l` for EVERY list, EVERY needle and EVERY
+equality relation (`eq` is a parameter; the machine instantiates it with `heq`, the model of
+`object.Equals`, under which `2 == 2.0 == byte(2)`). -/
+
+/-- **`l.index(v)` returns the FIRST position whose item equals `v`, and −1 (`none`) exactly
+    when no item equals `v`**: for every equality relation, needle and list, the loop of
+    `List.Index` answers `k` iff item `k` equals the needle and no earlier item does; it
+    answers "absent" iff every item differs from the needle. No item is skipped for any
+    other reason (its type, for instance). -/
+theorem index_finds_first (eq : Val → Val → Bool) (v : Val) (xs : List Val) :
+    (∀ k, Impl.indexOf eq v xs = some k ↔
+      ∃ hk : k < xs.length, eq v xs[k] = true ∧
+        ∀ j (hj : j < k), ¬ (eq v (xs[j]'(Nat.lt_trans hj hk)) = true)) ∧
+    (Impl.indexOf eq v xs = none ↔ ∀ x, x ∈ xs → eq v x = false) := by
+  rw [indexOf_refines]; unfold Spec.indexOf
+  exact ⟨fun k => List.findIdx?_eq_some_iff_getElem, List.findIdx?_eq_none_iff⟩
+
+/-- **`index`, `count`, `remove` and `in` agree with one another**: for every equality
+    relation, list and needle — `index` finds something iff some item equals the needle iff
+    `count` is positive; `remove` shortens the list by exactly one in that case and leaves its
+    length alone otherwise; `v in l` holds iff some item equals `v`. -/
+theorem search_consistent (eq : Val → Val → Bool) (xs : List Val) (v : Val) :
+    ((Impl.indexOf eq v xs).isSome = true ↔ ∃ x, x ∈ xs ∧ eq v x = true) ∧
+    (0 < Impl.count eq xs v ↔ ∃ x, x ∈ xs ∧ eq v x = true) ∧
+    ((Impl.remove eq xs v).length = xs.length - (if (Impl.indexOf eq v xs).isSome then 1 else 0)) ∧
+    (Impl.contains eq xs v = true ↔ ∃ x, x ∈ xs ∧ eq x v = true) := by
+  refine ⟨?_, ?_, ?_, ?_⟩
+  · rw [indexOf_refines]; unfold Spec.indexOf
+    rw [List.findIdx?_isSome]; simp
+  · rw [count_refines]; unfold Spec.count; simp
+  · rw [remove_refines, indexOf_refines]; unfold Spec.remove Spec.indexOf
+    rw [List.length_eraseP, List.findIdx?_isSome]
+    split <;> simp
+  · unfold Impl.contains; simp
+
+/-- **Numbers are equal by value, whatever their type**: for every heap, fuel, integer `x`
+    and byte `n`, the model of `object.Equals` makes `x == float(x)`, `n == int(n)`,
+    `n == float(n)`, in both argument orders (a float is `flt t` with value `t/2`). -/
+theorem numeric_equal_by_value (h : Heap) (f : Nat) (x : Int) (n : Nat) :
+    valEq h f (.int x) (.flt (2 * x)) = true ∧ valEq h f (.flt (2 * x)) (.int x) = true ∧
+    valEq h f (.int n) (.byte n) = true ∧ valEq h f (.byte n) (.int n) = true ∧
+    valEq h f (.byte n) (.flt (2 * n)) = true ∧ valEq h f (.flt (2 * n)) (.byte n) = true := by
+  simp [valEq]
+
+/-- equality of two atoms (neither is a container) does not depend on the argument order -/
+theorem atom_eq_symm (h : Heap) (f : Nat) (a b : Val) (ha : ∀ r, a ≠ .ref r) (hb : ∀ r, b ≠ .ref r) :
+    valEq h f a b = valEq h f b a := by
+  cases a <;> cases b <;> simp_all [valEq, Bool.beq_comm, eq_comm]
+
+theorem get_put_self (h : Heap) (r : Nat) (o : Obj) (hr : r < h.objs.length) : (h.put r o).get r = o :=
+  get_put_same h r o hr
+
+/-- **On the machine: an item that equals the needle is found whatever its type**: for every
+    heap, list `r`, needle `v` and item `w` of the list with `v == w` under the language's
+    equality (e.g. `v = 2`, `w = 2.0`), in both readings of the machine `l.index(v)` answers a
+    position inside the list (not −1), `l.count(v)` is at least one, and `l.remove(v)` makes the
+    list exactly one item shorter. -/
+theorem search_crosses_numeric_types (m : Mode) (h : Heap) (r : Nat) (xs : List Val) (v w : Val)
+    (hr : r < h.objs.length) (hg : h.get r = .list xs) (hw : w ∈ xs) (he : heq h v w = true) :
+    (∃ k : Nat, (step m h (.lIndex r v)).2 = .val (.int k) ∧ k < xs.length) ∧
+    (∃ c : Nat, (step m h (.lCount r v)).2 = .val (.int c) ∧ 1 ≤ c) ∧
+    (∃ ys, (step m h (.lRemove r v)).1.get r = .list ys ∧ ys.length + 1 = xs.length) := by
+  have hex : ∃ x, x ∈ xs ∧ heq h v x = true := ⟨w, hw, he⟩
+  have hc := search_consistent (heq h) xs v
+  have hidx : (Impl.indexOf (heq h) v xs).isSome = true := hc.1.2 hex
+  have hpos : 0 < xs.length := List.length_pos_of_mem hw
+  refine ⟨?_, ?_, ?_⟩
+  · cases hk : Impl.indexOf (heq h) v xs with
+    | none => rw [hk] at hidx; cases hidx
+    | some k =>
+      have hlt : k < xs.length := by
+        obtain ⟨hlt, _⟩ := ((index_finds_first (heq h) v xs).1 k).1 hk
+        exact hlt
+      refine ⟨k, ?_, hlt⟩
+      cases m
+      · simp [step, hg, hk]
+      · simp [step, hg, ← indexOf_refines, hk]
+  · refine ⟨Impl.count (heq h) xs v, ?_, hc.2.1.2 hex⟩
+    cases m
+    · simp [step, hg]
+    · simp [step, hg, count_refines]
+  · refine ⟨Impl.remove (heq h) xs v, ?_, ?_⟩
+    · cases m
+      · simp [step, hg, get_put_self h r _ hr]
+      · simp [step, hg, remove_refines, get_put_self h r _ hr]
+    · rw [hc.2.2.1, hidx]; simp; omega
+
+/-- the case the property's generator reaches through arithmetic: the list holds `2.0`
+    (`flt 4`), the needle is the int `2` -/
+theorem index_int_finds_float (m : Mode) (h : Heap) (r : Nat) (xs : List Val) (x : Int)
+    (hr : r < h.objs.length) (hg : h.get r = .list xs) (hw : Val.flt (2 * x) ∈ xs) :
+    ∃ k : Nat, (step m h (.lIndex r (.int x))).2 = .val (.int k) ∧ k < xs.length :=
+  (search_crosses_numeric_types m h r xs (.int x) (.flt (2 * x)) hr hg hw
+    (numeric_equal_by_value h (fuelOf h) x 0).1).1
+
+/-! ## 7b. Iterating a list that changes meanwhile: the iterator is a cursor into the LIVE list
+
+`iter(l)`, `it.next()`, `list(it)` and `for` loops whose body changes the list they run over.
+The reference reading: an iterator that has yielded `k` items yields item number `k` of the
+list AS IT IS AT THAT MOMENT, and is exhausted exactly when the list has no such item. -/
+
+/-- **Go's cursor arithmetic is the reference cursor**: for every list content and every
+    number `k` of items already yielded, `ListIter.Next` (`pos >= len-1` on the live items,
+    then `items[pos+1]`) yields `items[k]` exactly when it exists; draining (`list(it)`) collects
+    exactly `items.drop k` and parks the cursor at the end. -/
+theorem iter_refines (xs : List Val) (k : Nat) :
+    Impl.iterNext xs k = Spec.iterNext xs k ∧ Impl.drain xs k = Spec.drain xs k :=
+  ⟨iterNext_refines xs k, drain_refines xs k⟩
+
+/-- **`it.next()` reads the live list**: for every heap in which `it` is a cursor on list
+    object `l` with `k` items yielded and `l` holds `xs` NOW (however both got there), the
+    step yields `xs[k]` and moves only the cursor, or yields nil and changes nothing when the
+    list has no item `k`. In both readings of the machine. -/
+theorem iter_next_live (m : Mode) (h : Heap) (it l k : Nat) (xs : List Val)
+    (hi : h.get it = .iter l k) (hl : h.get l = .list xs) :
+    step m h (.iNext it) = (match xs[k]? with
+      | some v => (h.put it (.iter l (k + 1)), .val v)
+      | none => (h, .val .nil)) := by
+  simp only [step, hi, hl, nextOf_eq]
+  cases xs[k]? <;> rfl
+
+/-- **`list(it)` reads the live list**: the new list holds exactly the items from the cursor
+    on, as the list is now; the cursor ends at the end of the list. -/
+theorem iter_rest_live (m : Mode) (h : Heap) (it l k : Nat) (xs : List Val)
+    (hi : h.get it = .iter l k) (hl : h.get l = .list xs) :
+    step m h (.iRest it) = newList (h.put it (.iter l (max k xs.length))) (xs.drop k) := by
+  cases m <;> simp [step, hi, hl, drain_refines, Spec.drain]
+
+/-- **The cursor survives whatever is done to the list**: any operation sequence of any
+    length without `next`/`list` on this iterator — every mutation of the list it runs over
+    included — leaves the iterator object (its list, its count) as it was. -/
+theorem iter_cursor_survives (m : Mode) (h : Heap) (ops : List Op) (it : Nat) (hit : it < h.objs.length)
+    (hops : ∀ op ∈ ops, target op ≠ some it) : (run m h ops).1.objs[it]? = h.objs[it]? :=
+  (keeps_seq m h ops it hit hops).1
+
+/-- **`next`/`list(it)` never change the list**: they move the cursor only. -/
+theorem iter_steps_keep_list (m : Mode) (h : Heap) (it r : Nat) (hr : r < h.objs.length) (hne : r ≠ it) :
+    (step m h (.iNext it)).1.objs[r]? = h.objs[r]? ∧ (step m h (.iRest it)).1.objs[r]? = h.objs[r]? :=
+  ⟨(keeps_step m h (.iNext it) r hr (by simp [target]; omega)).1,
+   (keeps_step m h (.iRest it) r hr (by simp [target]; omega)).1⟩
+
+/-- **Iterate after mutation**: `it := iter(l)`, then ANY operation sequence of any length
+    that does not use `it` (appends, pops, removes, clears, assignments to `l` included), then
+    `list(it)`: the result is exactly the content `l` has THEN (`ys`) — neither a snapshot taken
+    when the iterator was made nor a view frozen at the old length — and `it.next()` in that
+    place yields `ys[0]`. -/
+theorem iter_sees_later_mutations (m : Mode) (h : Heap) (r : Nat) (xs ys : List Val) (ops : List Op)
+    (hg : h.get r = .list xs) (hops : ∀ op ∈ ops, target op ≠ some h.objs.length)
+    (hy : (run m (step m h (.iNew r)).1 ops).1.get r = .list ys) :
+    (step m h (.iNew r)).2 = .val (.ref h.objs.length) ∧
+    step m (run m (step m h (.iNew r)).1 ops).1 (.iRest h.objs.length) =
+      newList ((run m (step m h (.iNew r)).1 ops).1.put h.objs.length (.iter r ys.length)) ys ∧
+    step m (run m (step m h (.iNew r)).1 ops).1 (.iNext h.objs.length) =
+      (match ys[0]? with
+        | some v => ((run m (step m h (.iNew r)).1 ops).1.put h.objs.length (.iter r 1), .val v)
+        | none => ((run m (step m h (.iNew r)).1 ops).1, .val .nil)) := by
+  have hnew : step m h (.iNew r) = ({ h with objs := h.objs ++ [.iter r 0] }, .val (.ref h.objs.length)) := by
+    simp [step, hg, Heap.alloc]
+  rw [hnew]
+  simp only at hy ⊢
+  rw [hnew] at hy
+  simp only at hy
+  have hk := keeps_seq m { h with objs := h.objs ++ [.iter r 0] } ops h.objs.length (by simp) hops
+  have hit : (run m { h with objs := h.objs ++ [.iter r 0] } ops).1.get h.objs.length = .iter r 0 := by
+    unfold Heap.get
+    rw [List.getD_eq_getElem?_getD, hk.1]
+    simp
+  refine ⟨trivial, ?_, ?_⟩
+  · rw [iter_rest_live m _ _ r 0 ys hit hy]; simp
+  · rw [iter_next_live m _ _ r 0 ys hit hy]
+
+/-- **A `for` loop computes the reference loop**, whatever its body does to the list: in
+    every heap, for every list, both forms (`for i, x := range l`, `for x in l`) and every body
+    shape, running the rounds with Go's cursor and the code-shaped list functions gives the
+    same heap and the same record as running them with the reference cursor on the reference
+    list. -/
+theorem for_refines (h : Heap) (r : Nat) (w : Bool) (b : Body) :
+    step .impl h (.lFor r w b) = step .spec h (.lFor r w b) := refines_step h _ rfl
+
+/-- **A loop that leaves its list alone visits every item once, in order, with its index**:
+    the heap is unchanged and the record is `[0, xs[0], 1, xs[1], …]` (or `xs` itself for
+    `for x in l`), for every list. -/
+theorem for_plain_visits_all (m : Mode) (h : Heap) (r : Nat) (w : Bool) (xs : List Val) (hg : h.get r = .list xs) :
+    step m h (.lFor r w .none) = newList h (pairsFrom w 0 xs) ∧ pairsFrom false 0 xs = xs := by
+  refine ⟨?_, ?_⟩
+  · simp only [step, hg]
+    rw [forLoop_none m r w xs _ h 0 [] hg (by simp [Body.bound])]
+    simp
+  · have key : ∀ (ys : List Val) (k : Nat), pairsFrom false k ys = ys := by
+      intro ys
+      induction ys with
+      | nil => intro k; rfl
+      | cons y ys ih => intro k; simp [pairsFrom, ih]
+    exact key xs 0
+
+/-- **A loop whose body clears the list stops after the first round**: on every non-empty
+    list the body runs once (it sees item 0), the list is empty afterwards, and the loop ends —
+    it does not run on over the items the list used to have. -/
+theorem for_clear_stops (m : Mode) (h : Heap) (r : Nat) (w : Bool) (x : Val) (xs : List Val)
+    (hr : r < h.objs.length) (hg : h.get r = .list (x :: xs)) :
+    step m h (.lFor r w .clear) = newList (h.put r (.list [])) (if w then [.int 0, x] else [x]) := by
+  simp only [step, hg]
+  have hf : max (x :: xs).length Body.clear.bound + 1 = (xs.length + 0) + 2 := by
+    simp [Body.bound]
+  rw [hf]
+  unfold forLoop
+  simp only [hg, nextOf_eq, List.getElem?_cons_zero, bodyList]
+  unfold forLoop
+  simp [get_put_self h r _ hr, nextOf_eq]
+
+/-- **The round budget never cuts a loop short**: the machine gives a loop over a list of
+    length `n` whose body lets it grow to at most `b` items `max n b + 1` rounds; for EVERY
+    larger budget the loop ends in the same heap with the same record — it has ended by
+    itself (the cursor reached the end of the live list) before the budget is used up. -/
+theorem for_fuel_irrelevant (m : Mode) (h : Heap) (r : Nat) (w : Bool) (b : Body) (xs : List Val)
+    (hg : h.get r = .list xs) (d : Nat) :
+    forLoop m r w b (max xs.length b.bound + 1 + d) h 0 [] =
+      forLoop m r w b (max xs.length b.bound + 1) h 0 [] :=
+  forLoop_fuel_enough m r w b h 0 [] xs hg _ d (by omega)
+
+/-- no loop body lets the list grow beyond `max (its length, the body's bound)`; with the
+    cursor advancing by one per round this is why every generated loop ends -/
+theorem for_body_bounded (m : Mode) (eq : Val → Val → Bool) (b : Body) (xs : List Val) (k : Nat) (x : Val) :
+    (bodyList m eq b xs k x).length ≤ max xs.length b.bound := bodyList_length_le m eq b xs k x
+
+/-- **A loop changes no object but the list it runs over**, and a loop whose body leaves the
+    list alone changes nothing at all (`target`); its record is a new object. With `keeps_seq`
+    this puts loops into the independence theorems for arbitrary operation sequences. -/
+theorem for_frame (m : Mode) (h : Heap) (r q : Nat) (w : Bool) (b : Body) (hq : q < h.objs.length)
+    (hne : q ≠ r ∨ b = .none) : (step m h (.lFor r w b)).1.objs[q]? = h.objs[q]? := by
+  refine (keeps_lFor m h r w b q hq ?_).1
+  rcases hne with hne | hb
+  · cases b <;> simp [target] <;> omega
+  · subst hb; simp [target]
+
 /-! ## 7. Non-vacuity: the hypotheses are satisfiable and the functions do something -/
 
 example : Risor.Generated.C16.resolveIndex (-3) 3 = .ok 0 := by decide
@@ -851,5 +1109,33 @@ example : (run .impl { objs := [.list [.int 1, .int 2, .int 3]], arrs := [] }
     [.bi (.chunk 0 (.int 2)), .lSet 1 (.int 0) (.int 9), .bi (.eachAcc 0 0)]).1.objs
     = [.list [.int 1, .int 2, .int 3, .int 1, .int 2, .int 3], .list [.int 9, .int 2], .list [.int 3], .list [.ref 1, .ref 2]] := by decide
 example : target (.bi (.sortedBy 0 .lt (some 3))) = none ∧ target (.bi (.eachAcc 0 1)) = some 1 := by decide
+
+-- searching across numeric types: [1, 2.0, 3] with the needles 2 (int) and byte(2)
+example : (run .impl { objs := [.list [.int 1, .flt 4, .int 3]], arrs := [] }
+    [.lIndex 0 (.int 2), .lCount 0 (.byte 2), .lContains 0 (.int 2), .lRemove 0 (.int 2)]).2
+    = [.val (.int 1), .val (.int 1), .val (.bool true), .unit] := by decide
+example : (run .impl { objs := [.list [.int 1, .flt 4, .int 3]], arrs := [] } [.lRemove 0 (.int 2)]).1.objs
+    = [.list [.int 1, .int 3]] := by decide
+-- 1.5 equals no integer
+example : (step .impl { objs := [.list [.int 1, .flt 3]], arrs := [] } (.lIndex 0 (.int 1))).2 = .val (.int 0) ∧
+    (step .impl { objs := [.list [.int 1, .flt 3]], arrs := [] } (.lIndex 0 (.int 2))).2 = .val (.int (-1)) := by decide
+-- iterate after mutation: it := iter([1,2]); next; append 3; pop 0; list(it) sees the live list
+example : (run .impl { objs := [.list [.int 1, .int 2]], arrs := [] }
+    [.iNew 0, .iNext 1, .lAppend 0 (.int 3), .iNext 1, .iNext 1, .iNext 1, .lAppend 0 (.int 4), .iNext 1]).2
+    = [.val (.ref 1), .val (.int 1), .unit, .val (.int 2), .val (.int 3), .val .nil, .unit, .val (.int 4)] := by decide
+example : (run .impl { objs := [.list [.int 1, .int 2, .int 3]], arrs := [] }
+    [.iNew 0, .iNext 1, .lClear 0, .lAppend 0 (.int 9), .lAppend 0 (.int 8), .iRest 1]).1.objs
+    = [.list [.int 9, .int 8], .iter 0 2, .list [.int 8]] := by decide
+-- work list: `for i, x := range l { if len(l) < 5 { l.append(x) } }` on [1, 2] visits five items
+example : (step .impl { objs := [.list [.int 1, .int 2]], arrs := [] } (.lFor 0 true (.grow 5))).1.objs
+    = [.list [.int 1, .int 2, .int 1, .int 2, .int 1],
+       .list [.int 0, .int 1, .int 1, .int 2, .int 2, .int 1, .int 3, .int 2, .int 4, .int 1]] := by decide
+-- popping inside the loop: the loop ends where the list ends NOW
+example : (step .impl { objs := [.list [.int 1, .int 2, .int 3, .int 4]], arrs := [] } (.lFor 0 false .popLast)).1.objs
+    = [.list [.int 1, .int 2], .list [.int 1, .int 2]] := by decide
+-- removing the current item shifts the rest under the cursor: every second item is skipped
+example : (step .impl { objs := [.list [.int 1, .int 2, .int 3, .int 4]], arrs := [] } (.lFor 0 false .removeCur)).1.objs
+    = [.list [.int 2, .int 4], .list [.int 1, .int 3]] := by decide
+example : target (.lFor 0 true .none) = none ∧ target (.lFor 0 true .popLast) = some 0 ∧ target (.iNext 3) = some 3 := by decide
 
 end Risor.C16
